@@ -9,6 +9,11 @@ impl<T: Clone + std::fmt::Debug> Env<T> {
         Self(vec![BTreeMap::new()])
     }
 
+    /// Returns an environment that only consists of the outermost (top level) scope.
+    pub(crate) fn outermost_scope(&self) -> Self {
+        Self(self.0.iter().take(1).cloned().collect())
+    }
+
     pub(crate) fn get(&self, identifier: &str) -> Option<T> {
         for bindings in self.0.iter().rev() {
             if let Some(v) = bindings.get(identifier) {
